@@ -23,6 +23,8 @@
 //!   R8 X.iter().cloned().zip(Y.into_iter()).collect()   -> verif_zip_collect(X, Y)
 //!   R9 closure header `|x|` -> annotated header from `//@closure n` (types, result name, ensures); body verbatim
 //!   R10 `for P in E` -> `for P in it: E` when the loop contract names the ghost iterator (`//@loop n iter=it`)
+//!   R12 invocations of the crate's own single-rule macro_rules macros (src/lib.rs) are expanded textually
+//!   R11 `Zip::from(X).and(Y).for_each(|a, b| BODY)` -> `for (a, b) in it: verif_zip2(X, Y) BODY` (closure body becomes the loop body)
 //!   R7 tail expression carrying an `after_call` anchor   -> { let __r = <tail>; <ghost>; __r }
 //! Exit codes: 0 ok, 3 lost anchor / item not found, 4 usage or internal error.
 
@@ -320,6 +322,8 @@ struct BodyScan {
 struct Scanner<'a> {
     src: &'a SrcFile,
     scan: BodyScan,
+    // R12: the crate's own single-rule macro_rules macros: name -> (parameter names, body text)
+    crate_macros: &'a BTreeMap<String, (Vec<String>, String)>,
 }
 
 fn pat_idents(p: &syn::Pat, out: &mut Vec<String>) {
@@ -367,6 +371,19 @@ impl<'a> Scanner<'a> {
                 let f = if name.starts_with("assert") { "verif_assert" } else { "verif_debug_assert" };
                 let op = if name.ends_with("_eq") { "==" } else { "!=" };
                 self.scan.rewrites.push((a, b, format!("{}(({}) {} ({}))", f, l, op, r), "R2".into()));
+                true
+            }
+            nm if self.crate_macros.contains_key(nm) && nm != "private_decl" && nm != "private_impl" => {
+                // R12: textual expansion of the crate's own macro from its definition in src/lib.rs
+                let (params, body) = self.crate_macros.get(nm).unwrap().clone();
+                let ar = args().unwrap_or_else(|| die(3, format!("cannot parse {}! arguments", name)));
+                if ar.len() != params.len() { die(3, format!("{}!: {} arguments for {} parameters", name, ar.len(), params.len())); }
+                let mut text = body;
+                for (p, a0) in params.iter().zip(ar.iter()) {
+                    let at = self.text(a0.span()).to_string();
+                    text = text.replace(&format!("${}", p), &at);
+                }
+                self.scan.rewrites.push((a, b, format!("{{ {} }}", text.trim()), "R12".into()));
                 true
             }
             "s" => {
@@ -507,6 +524,34 @@ impl<'a, 'ast> Visit<'ast> for Scanner<'a> {
                 }
             }
         }
+        // R11: Zip::from(X).and(Y).for_each(|a, b| BODY)
+        if c.method == "for_each" && c.args.len() == 1 {
+            if let (syn::Expr::MethodCall(andc), syn::Expr::Closure(cl)) = (&*c.receiver, &c.args[0]) {
+                if andc.method == "and" && andc.args.len() == 1 && cl.inputs.len() == 2 {
+                    if let syn::Expr::Call(fc) = &*andc.receiver {
+                        let is_zip_from = if let syn::Expr::Path(p) = &*fc.func { let v: Vec<String> = p.path.segments.iter().map(|x| x.ident.to_string()).collect(); v.len() >= 2 && v[v.len() - 2] == "Zip" && v[v.len() - 1] == "from" } else { false };
+                        if is_zip_from && fc.args.len() == 1 && matches!(&*cl.body, syn::Expr::Block(_)) {
+                            let (a, _) = self.src.range(c.span());
+                            let (bs, be) = self.src.range(cl.body.span());
+                            let xs = self.text(fc.args[0].span()).to_string();
+                            let ys = self.text(andc.args[0].span()).to_string();
+                            let p0 = self.text(cl.inputs[0].span()).to_string();
+                            let p1 = self.text(cl.inputs[1].span()).to_string();
+                            // header replaces everything up to the closure body; the body block stays verbatim; the closing `)` goes
+                            self.scan.rewrites.push((a, bs, format!("let __zip = verif_zip2({}, {}); let ghost __zs = __zip@; for ({}, {}) in it: __zip ", xs.trim(), ys.trim(), p0, p1), "R11".into()));
+                            let (_, ce) = self.src.range(c.span());
+                            self.scan.rewrites.push((be, ce, String::new(), "R11".into()));
+                            // the zipped loop counts as a loop for `//@loop n` contracts: body block = the closure's block
+                            let (s0, e0) = self.src.range(c.span());
+                            self.scan.loops.push((bs, be - 1, s0, e0));
+                            self.record_call("verif_zip2".into());
+                            syn::visit::visit_expr(self, &cl.body);
+                            return;
+                        }
+                    }
+                }
+            }
+        }
         // R8: X.iter().cloned().zip(Y.into_iter()).collect()
         if c.method == "collect" && c.args.is_empty() {
             if let syn::Expr::MethodCall(z) = &*c.receiver {
@@ -530,6 +575,37 @@ impl<'a, 'ast> Visit<'ast> for Scanner<'a> {
         }
         self.record_call(c.method.to_string());
         syn::visit::visit_expr_method_call(self, c);
+    }
+}
+
+/// single-rule `macro_rules!` definitions with `$name:frag` parameters, found anywhere in a file
+fn collect_macros(src: &SrcFile, items: &[syn::Item], out: &mut BTreeMap<String, (Vec<String>, String)>) {
+    for it in items {
+        match it {
+            syn::Item::Macro(m) => {
+                if let (Some(name), true) = (&m.ident, m.mac.path.is_ident("macro_rules")) {
+                    let tts: Vec<proc_macro2::TokenTree> = m.mac.tokens.clone().into_iter().collect();
+                    // ( matcher ) => { body } [;]   -- exactly one rule
+                    let groups: Vec<&proc_macro2::Group> = tts.iter().filter_map(|t| if let proc_macro2::TokenTree::Group(g) = t { Some(g) } else { None }).collect();
+                    if groups.len() == 2 {
+                        let mut params = vec![];
+                        let mt: Vec<proc_macro2::TokenTree> = groups[0].stream().into_iter().collect();
+                        let mut k = 0;
+                        while k + 1 < mt.len() {
+                            if let (proc_macro2::TokenTree::Punct(p), proc_macro2::TokenTree::Ident(id)) = (&mt[k], &mt[k + 1]) {
+                                if p.as_char() == '$' { params.push(id.to_string()); k += 2; continue; }
+                            }
+                            k += 1;
+                        }
+                        let (a, _) = src.range(groups[1].span_open());
+                        let (b, _) = src.range(groups[1].span_close());
+                        out.insert(name.to_string(), (params, src.text[a + 1..b].to_string()));
+                    }
+                }
+            }
+            syn::Item::Mod(md) => { if let Some((_, its)) = &md.content { collect_macros(src, its, out); } }
+            _ => {}
+        }
     }
 }
 
@@ -602,6 +678,12 @@ fn main() {
         }
     }
 
+    let mut crate_macros: BTreeMap<String, (Vec<String>, String)> = BTreeMap::new();
+    let librs = repo.join("src/lib.rs");
+    if librs.exists() {
+        let lf = SrcFile::load(&librs);
+        collect_macros(&lf, &lf.ast.items, &mut crate_macros);
+    }
     let mut ob = OutBuf { text: String::new(), line: 1, map: vec![] };
     let mut fns = vec![];
     for it in &items {
@@ -640,7 +722,7 @@ fn main() {
                 }
                 let (bo, _) = src.range(f.block.brace_token.span.open());
                 let (bc, bc_end) = src.range(f.block.brace_token.span.close());
-                let mut sc = Scanner { src, scan: BodyScan::default() };
+                let mut sc = Scanner { src, scan: BodyScan::default(), crate_macros: &crate_macros };
                 sc.visit_block(f.block);
                 let scan = sc.scan;
 
@@ -749,7 +831,8 @@ fn main() {
                 if vacuity {
                     edits.push((bo + 1, bo + 1, seq, "\nproof { assert(false); } // VACUITY PROBE\n".to_string(), json!({"kind": "vacuity", "fn": id, "tags": ""})));
                 }
-                edits.sort_by(|x, y| (x.0, x.2).cmp(&(y.0, y.2)));
+                // zero-width insertions at an offset come before a replacement that starts there
+                edits.sort_by(|x, y| (x.0, (x.1 > x.0) as u8, x.2).cmp(&(y.0, (y.1 > y.0) as u8, y.2)));
                 // emit
                 let sig = sig_sec.unwrap_or_else(|| die(4, format!("extract {} without //@sig", id)));
                 let fn_out_start = ob.line;
